@@ -108,6 +108,24 @@ def laws(rng, quick):
     first2 = sq >> cs.Byte
     L.append(("(s>>b), then s>>c<->Sequence", ({"k": "Opaque", "desc": "s >> Int16ub after s >> Byte"}, lambda: sq >> cs.Int16ub), A.Sequence(by, sh), [2, 3, 4], [[1, 2], [1, 2, 3], [1]]))
     L.append(("a>>b<->Sequence", ({"k": "Opaque", "desc": "Byte >> Int16ub"}, lambda: cs.Byte >> cs.Int16ub), A.Sequence(by, sh), [2, 3, 4], [[1, 2], [1], [], None, [256, 1]]))
+    # only a bare Struct (Sequence) operand is spliced into the sum: a named one, and every other composite, stays one member
+    inner = A.Struct(A.Renamed("x", by), A.Renamed("y", by))
+    L.append(("'h'/Struct + z<->Struct(h, z)", ({"k": "Opaque", "desc": "'hdr'/Struct(x, y) + 'z'/Byte"}, lambda: ("hdr" / cs.Struct("x" / cs.Byte, "y" / cs.Byte)) + ("z" / cs.Byte)),
+              A.Struct(A.Renamed("hdr", inner), A.Renamed("z", by)), [2, 3, 4], [{"hdr": {"x": 1, "y": 2}, "z": 3}, {"x": 1, "y": 2, "z": 3}, {"hdr": {"x": 1}, "z": 3}, None]))
+    L.append(("'o'/Optional + z<->Struct(o, z)", ({"k": "Opaque", "desc": "'opt'/Optional(Int16ub) + 'z'/Byte"}, lambda: ("opt" / cs.Optional(cs.Int16ub)) + ("z" / cs.Byte)),
+              A.Struct(A.Renamed("opt", A.Optional(sh)), A.Renamed("z", by)), [0, 1, 2, 3, 4], [{"opt": 1, "z": 3}, {"opt": None, "z": 3}, {"z": 3}, {"opt": 70000, "z": 1}]))
+    L.append(("z + Sequence<->Struct(z, Sequence)", ({"k": "Opaque", "desc": "'z'/Byte + Sequence(Byte, Byte)"}, lambda: ("z" / cs.Byte) + cs.Sequence(cs.Byte, cs.Byte)),
+              A.Struct(A.Renamed("z", by), A.Sequence(by, by)), [2, 3, 4], [{"z": 3}, {"z": 256}, {}]))
+    L.append(("'p'/PrefixedArray + z<->Struct(p, z)", ({"k": "Opaque", "desc": "'p'/PrefixedArray(Byte, Byte) + 'z'/Byte"}, lambda: ("p" / cs.PrefixedArray(cs.Byte, cs.Byte)) + ("z" / cs.Byte)),
+              A.Struct(A.Renamed("p", A.PrefixedArray(by, by)), A.Renamed("z", by)), [1, 2, 3, 4], [{"p": [1, 2], "z": 3}, {"p": [], "z": 3}, {"count": 1, "items": [1], "z": 3}]))
+    L.append(("Select + z<->Struct(Select, z)", ({"k": "Opaque", "desc": "'s'/Select(Int16ub, Byte) + 'z'/Byte"}, lambda: ("s" / cs.Select(cs.Int16ub, cs.Byte)) + ("z" / cs.Byte)),
+              A.Struct(A.Renamed("s", A.Select(sh, by)), A.Renamed("z", by)), [1, 2, 3, 4], [{"s": 1, "z": 3}, {"s": 70000, "z": 3}]))
+    L.append(("'s'/Sequence >> b<->Sequence(s, b)", ({"k": "Opaque", "desc": "'s'/Sequence(Byte, Byte) >> Int16ub"}, lambda: ("s" / cs.Sequence(cs.Byte, cs.Byte)) >> cs.Int16ub),
+              A.Sequence(A.Renamed("s", A.Sequence(by, by)), sh), [3, 4, 5], [[[1, 2], 3], [1, 2, 3], [[1], 3], None]))
+    L.append(("Struct >> b<->Sequence(Struct, b)", ({"k": "Opaque", "desc": "Struct('a'/Byte) >> Byte"}, lambda: cs.Struct("a" / cs.Byte) >> cs.Byte),
+              A.Sequence(A.Struct(A.Renamed("a", by)), by), [1, 2, 3], [[{"a": 1}, 2], [1, 2], [{"a": 1}]]))
+    L.append(("Array >> b<->Sequence(Array, b)", ({"k": "Opaque", "desc": "Byte[2] >> Byte"}, lambda: cs.Byte[2] >> cs.Byte),
+              A.Sequence(A.Array(2, by), by), [2, 3, 4], [[[1, 2], 3], [1, 2, 3], [[1], 3]]))
     L.append(("name/x<->Renamed", ({"k": "Opaque", "desc": "Struct('n'/Byte)"}, lambda: cs.Struct("n" / cs.Byte)), ({"k": "Opaque", "desc": "Struct(Renamed(Byte,'n'))"}, lambda: cs.Struct(cs.Renamed(cs.Byte, newname="n"))), [0, 1, 2], [{"n": 1}, {}, {"n": 256}]))
     return L
 
